@@ -139,7 +139,7 @@ def _check_unwrapped(out, case, prog, spec, dtype, dual, g, before, agg, expecte
         return out
     x = agg(Jt).double().numpy()
     wn = rel.weights_norm(agg, Jt) if spec["name"] != "TrimmedMean" else 1.0
-    tol = rel.base_tolerance(spec, dtype, Jfull, wn, float(np.linalg.norm(x))) * 4 + jdcheck.DERIV_TOL[dtype] * max(1.0, dual.max_abs) * max(1.0, wn) * m
+    tol = rel.base_tolerance(spec, dtype, Jfull, wn, float(np.linalg.norm(x))) * 4 + jdcheck.deriv_tol(dtype, dual.max_abs) * max(1.0, wn) * m
     off = 0
     for i in expected_inputs:
         k = blocks[i].shape[1]
@@ -162,7 +162,7 @@ def run_case(case) -> Outcome:
     out = Outcome()
     prog, spec, dtype = case["prog"], case["agg"], case["prog"]["dtype"]
     dual = P.run_dual(prog)
-    if not dual.max_abs < 1e6:
+    if not jdcheck.scale_ok(dtype, dual.max_abs):
         out.excluded = "values-or-tangents-exceed-1e6"
         return out
     shapes = P.infer_shapes(prog)
